@@ -442,9 +442,38 @@ func hasContainer(v any) bool {
 	return false
 }
 
+// hasNilNative reports whether a native export contains a nil slice or a nil map at any depth: the export of an
+// empty container is an empty slice / map (NewListFrom([]any{}).NativeSlice() is deep-equal to its input), never nil.
+func hasNilNative(v any) bool {
+	switch x := v.(type) {
+	case []any:
+		if x == nil {
+			return true
+		}
+		for _, e := range x {
+			if hasNilNative(e) {
+				return true
+			}
+		}
+	case map[string]any:
+		if x == nil {
+			return true
+		}
+		for _, e := range x {
+			if hasNilNative(e) {
+				return true
+			}
+		}
+	}
+	return false
+}
+
 func nativeTok(v any) string {
 	if hasContainer(v) {
 		return "C!"
+	}
+	if hasNilNative(v) {
+		return "N!"
 	}
 	return treeOf(v).Token()
 }
